@@ -127,6 +127,16 @@ def convert(cfg, doc):
     return backend.convert_rule(rule)
 
 
+def _has_unbound_cased(doc) -> bool:
+    def walk(x):
+        if isinstance(x, dict):
+            return any((isinstance(k, str) and k.startswith("|") and "cased" in k.split("|")) or walk(v) for k, v in x.items())
+        if isinstance(x, list):
+            return any(walk(v) for v in x)
+        return False
+    return walk({k: v for k, v in doc["detection"].items() if k != "condition"})
+
+
 def check_case(case: dict) -> Outcome:
     from sigma.exceptions import SigmaError
 
@@ -159,6 +169,12 @@ def check_case(case: dict) -> Outcome:
         out.skipped = "recursion limit"
         return out
     except (SigmaError, NotImplementedError) as e:
+        if isinstance(e, NotImplementedError) and _has_unbound_cased(doc):
+            # the backend interface has no case-sensitive form for values without a field: refusing is
+            # the faithful outcome (a query for such a rule is compared like any other and would not match)
+            out.skipped = "case-sensitive unbound value: not expressible, refused"
+            out.label("unbound-cased-refused")
+            return out
         out.fail(f"C01:conversion-failed:{type(e).__name__}", f"cfg={case['cfg']} doc={doc['detection']!r}: {type(e).__name__}: {e}")
         return out
     except Exception as e:  # noqa
